@@ -120,4 +120,51 @@ theorem good_shapes (p : Path) (hg : Good p) :
     · rw [h2 rfl, post_tt]
       exact ⟨rfl, fun _ => rfl, (fun h => by cases h), h4, rfl⟩
 
+/-- **BatchRepeat over any `Good` path** (incl. Block nests): for every base batch shape `bb`, every repeat vector `rp`
+(positive entries; the operator's batch shape is `repeatShape rp bb`), every number of columns and every flag
+combination the two terms have the documented shapes.  The base operator is called with `m · Π rp` columns and
+`reduce_inv_quad=False`. -/
+theorem rep_shapes (p : Path) (hg : Good p) (bb rp : List Nat) (m : Nat) (lg red : Bool)
+    (hbb : ∀ d ∈ bb, 0 < d) (hrp : ∀ d ∈ rp, 0 < d) (hm : 0 < m) (batch : List Nat) (hbatch : batch = repeatShape rp bb) :
+    (shapes (.rep p bb rp) batch (.mat m) lg red).1 = .shape (if red then batch else batch ++ [m]) ∧
+    (lg = true → (shapes (.rep p bb rp) batch (.mat m) lg red).2 = .shape batch) ∧
+    (shapes (.rep p bb rp) batch (.mat m) lg red).2 ≠ .err ∧
+    (shapes (.rep p bb rp) batch .absent true red).1 ≠ .err ∧
+    (shapes (.rep p bb rp) batch .absent true red).2 = .shape batch := by
+  subst hbatch
+  have hr : 0 < numel rp := numel_pos rp hrp
+  have hmr : 0 < m * numel rp := Nat.mul_pos hm hr
+  obtain ⟨h1, h2, h3, _, _⟩ := good_shapes p hg bb (m * numel rp) lg false hbb hmr
+  obtain ⟨_, _, _, h4, h5⟩ := good_shapes p hg bb (m * numel rp) true false hbb hmr
+  have hNb : numel bb ≠ 0 := Nat.ne_of_gt (numel_pos _ hbb)
+  have hN1 : numel (bb ++ [m * numel rp]) ≠ 0 := by
+    rw [numel_append_single]; exact Nat.ne_of_gt (Nat.mul_pos (numel_pos _ hbb) hmr)
+  have hmat : shapes (.rep p bb rp) (repeatShape rp bb) (.mat m) lg red
+      = repPost (repeatShape rp bb) bb rp (.mat m) lg red (shapes p bb (.mat (m * numel rp)) lg false) := rfl
+  have habs : shapes (.rep p bb rp) (repeatShape rp bb) .absent true red
+      = repPost (repeatShape rp bb) bb rp .absent true red (shapes p bb .absent true false) := rfl
+  have e1 : shapes p bb (.mat (m * numel rp)) lg false
+      = (.shape (bb ++ [m * numel rp]), (shapes p bb (.mat (m * numel rp)) lg false).2) := by
+    refine Prod.ext ?_ rfl
+    simpa using h1
+  have e2 : shapes p bb .absent true false = ((shapes p bb .absent true false).1, .shape bb) := Prod.ext rfl h5
+  have post_abs : ∀ iq : Term, iq ≠ .err →
+      repPost (repeatShape rp bb) bb rp .absent true red (iq, .shape bb) = (iq, .shape (repeatShape rp bb)) := by
+    intro iq hiq
+    cases iq <;> simp [repPost, hNb] at hiq ⊢
+  have post_mat : ∀ ld : Term, ld ≠ .err → (lg = true → ld = .shape bb) →
+      repPost (repeatShape rp bb) bb rp (.mat m) lg red (.shape (bb ++ [m * numel rp]), ld)
+        = (.shape (if red then (repeatShape rp bb) else (repeatShape rp bb) ++ [m]),
+           if lg then .shape (repeatShape rp bb) else ld) := by
+    intro ld hld hl
+    cases lg
+    · cases ld <;> simp [repPost, hN1] at hld ⊢
+    · rw [hl rfl]
+      simp [repPost, hN1, hNb]
+  rw [hmat, habs, e2, post_abs _ h4, e1, post_mat _ h3 h2]
+  refine ⟨rfl, fun h => by simp [h], ?_, h4, rfl⟩
+  cases lg
+  · simpa using h3
+  · simp
+
 end LinOp.C05
